@@ -85,6 +85,10 @@ def leaf_view(prog, obs):
 def oracle(case, obs):
     a = leaf_view(case["flat"], obs["flat"])
     b = leaf_view(case["nested"], obs["nested"])
+    for o in (obs["flat"], obs["nested"]):
+        why = sc.clock_oracle(o)
+        if why:
+            return why
     if a["raised"] != "none" or b["raised"] != "none":
         return f"run raised: flat {a['raised']}, nested {b['raised']}"
     if a["events"] != b["events"]:
